@@ -397,6 +397,21 @@ func run(r *Rng, tier string, n int) {
 		}
 		checkMsg(m, false, "beyond-16384")
 	}
+	// deepest pointer nesting: every suffix of a name of k one-octet labels packed first (shortest
+	// first, so each is a label plus a pointer to the previous one), then the full name again, which
+	// is emitted as a bare pointer and needs one hop per label when decoded (k = 127 is the maximum
+	// a 255-octet name allows)
+	for _, k := range []int{2, 3, 64, 125, 126, 127} {
+		for _, lab := range []string{"a.", "\\000."} {
+			m := new(dns.Msg)
+			m.SetQuestion("q.", dns.TypeA)
+			for i := 1; i <= k; i++ {
+				m.Answer = append(m.Answer, &dns.A{Hdr: dns.RR_Header{Name: strings.Repeat(lab, i), Rrtype: dns.TypeA, Class: 1}, A: []byte{1, 2, 3, 4}})
+			}
+			m.Ns = append(m.Ns, &dns.NS{Hdr: dns.RR_Header{Name: strings.Repeat(lab, k), Rrtype: dns.TypeNS, Class: 1}, Ns: strings.Repeat(lab, k)})
+			checkMsg(m, k <= 64 && lab == "a.", "pointer-nesting")
+		}
+	}
 	// sequences of packDomainName calls sharing one map, also starting near offset 16384
 	nseq := 120
 	if tier == "thorough" {
